@@ -35,6 +35,7 @@ func modesMonMain(args []string) int {
 	shards := fs.Int("shards", 1, "")
 	shard := fs.Int("shard", 0, "")
 	repeat := fs.Int("repeat", 1, "replays per order (the monitor's select is a real choice)")
+	noupd := fs.Bool("noupdate", false, "the handler is made by the library's HandlerBuilder without an update callback")
 	fs.Parse(args)
 	theTracer.End()
 	f, err := os.Open(*in)
@@ -57,7 +58,7 @@ func modesMonMain(args []string) int {
 			return 2
 		}
 		for r := 0; r < *repeat; r++ {
-			replayMonBehaviour(w, b)
+			replayMonBehaviour(w, b, *noupd)
 			n++
 		}
 	}
@@ -97,7 +98,7 @@ func (h *blockingHandler) OnCreate(o metav1.Object) { h.enter(-2) }
 func (h *blockingHandler) OnUpdate(o metav1.Object) { h.enter(verModel(o.GetResourceVersion()) - 1) }
 func (h *blockingHandler) OnDelete(o metav1.Object) { h.enter(-3) }
 
-func replayMonBehaviour(w *ndWriter, b monBehaviour) {
+func replayMonBehaviour(w *ndWriter, b monBehaviour, noupd bool) {
 	log := newLog(nil)
 	ctx, cancel := context.WithCancel(context.Background())
 	pcache := kcache.VerifNewCache(ctx, log, nil, mkFilter("null"))
@@ -106,7 +107,12 @@ func replayMonBehaviour(w *ndWriter, b monBehaviour) {
 	psub := kcache.VerifNewSubscription(log, nil, readych, pcache.Reader())
 	pub := kcache.VerifNewPublisher(log, psub)
 	h := &blockingHandler{rel: make(chan struct{})}
-	mon, err := kcache.NewMonitor(pub, h)
+	var hh kcache.Handler = h
+	if noupd {
+		// no update callback registered: update events are consumed silently, no other callback stands in for it
+		hh = kcache.BuildHandler().OnInitialize(h.OnInitialize).OnCreate(h.OnCreate).OnDelete(h.OnDelete).Create()
+	}
+	mon, err := kcache.NewMonitor(pub, hh)
 	if err != nil {
 		w.write2(fmt.Sprintf(`{"k":"modesmon.error","err":%q}`, err.Error()))
 		cancel()
